@@ -144,6 +144,19 @@ func runC17(c *fw.Ctx) {
 		if len(s) > 256 {
 			c.Count("removal_sets_above_256_nodes", 1)
 		}
+		// every node without children: each of them is reachable through present nodes, so one handle that walks the
+		// whole trie has several hundred distinct absent nodes to record
+		lv := map[int]bool{}
+		for i := 1; i < len(nodes); i++ {
+			if len(kids[i]) == 0 {
+				lv[i] = true
+			}
+		}
+		sets = append(sets, lv)
+		setKinds = append(setKinds, "all-childless")
+		if len(lv) > 256 {
+			c.Count("removal_sets_with_more_than_256_absent_nodes_reachable_through_present_ones", 1)
+		}
 		c.Count("fat_tries", 1)
 	}
 	sets = append(sets, map[int]bool{})
@@ -261,11 +274,22 @@ func runC17(c *fw.Ctx) {
 				fail("lookup of never-stored path %q returned data %q", p, d)
 			}
 		}
+		// the handle has now walked towards every stored path: what it recorded on the way is (as a set) exactly the absent
+		// nodes reachable through present ones - the list a node hands to its peers when it asks for state
+		recorded := map[string]bool{}
 		for _, k := range L.GetMissingNodeKeys() {
 			if !absent[string(k)] {
 				fail("GetMissingNodeKeys lists %x which is present in the store", k)
 			}
+			recorded[string(k)] = true
 		}
+		for k := range frontier {
+			if !recorded[k] {
+				fail("after lookups of every stored path GetMissingNodeKeys (%d distinct keys) does not list the absent node %x; %d absent nodes are reachable through present ones", len(recorded), k, len(frontier))
+				break
+			}
+		}
+		c.Max("max:absent_nodes_recorded_by_one_handle", int64(len(recorded)))
 		// partial iteration never yields wrong data
 		if gotc, _ := lab.IterAll(lab.NewMPT(part, mv, root)); true {
 			for p, v := range gotc {
@@ -635,7 +659,7 @@ func init() {
 			return 4800
 		},
 		Run:    runC17,
-		Floors: map[string]int64{"fat_tries": 50, "removal_sets_above_256_nodes": 35, "store_level_repairs": 15000, "store_level_repairs_into_the_lower_level": 2000, "store_level_repairs_with_a_refused_write": 1000, "store_level_repairs_from_a_persistent_donor": 3000, "syncs_after_a_local_delete": 3000, "tries_built_from_version_0": 1500, "handles_with_history_synced_back": 5000, "handles_with_history_synced_back_over_real_deletions": 2000, "tries": 3000, "removal_sets": 50000, "removal:single": 30000, "removal:subtree": 9000, "removal:scattered": 12000, "blocked_lookups": 50000, "repairs_with_foreign_origin": 20000, "tries_with_mixed_origins": 1000, "warm_cache_repairs": 10000, "repaired_child_merged_into_parent": 8000, "synced_state_saved_and_reread": 8000, "repairs_from_layered_donor": 8000},
+		Floors: map[string]int64{"fat_tries": 50, "removal_sets_above_256_nodes": 35, "removal_sets_with_more_than_256_absent_nodes_reachable_through_present_ones": 20, "store_level_repairs": 15000, "store_level_repairs_into_the_lower_level": 2000, "store_level_repairs_with_a_refused_write": 1000, "store_level_repairs_from_a_persistent_donor": 3000, "syncs_after_a_local_delete": 3000, "tries_built_from_version_0": 1500, "handles_with_history_synced_back": 5000, "handles_with_history_synced_back_over_real_deletions": 2000, "tries": 3000, "removal_sets": 50000, "removal:single": 30000, "removal:subtree": 9000, "removal:scattered": 12000, "blocked_lookups": 50000, "repairs_with_foreign_origin": 20000, "tries_with_mixed_origins": 1000, "warm_cache_repairs": 10000, "repaired_child_merged_into_parent": 8000, "synced_state_saved_and_reread": 8000, "repairs_from_layered_donor": 8000},
 		Assumptions: []string{
 			"the donor is a MemoryNodeDB (map iteration order = arbitrary repair order)",
 			"single-node removals are exhaustive up to 24 nodes per trie; other subsets are sampled",
